@@ -494,6 +494,10 @@ def _type_check_field_existence_condition(field, source_file_name, errors):
 def _type_name_for_error_messages(expression_type):
     if expression_type.which_type == "integer":
         return "integer"
+    elif expression_type.which_type == "boolean":
+        return "boolean"
+    elif expression_type.which_type == "opaque":
+        return "a non-scalar value"
     elif expression_type.which_type == "enumeration":
         # TODO(bolms): Should this be the fully-qualified name?
         return expression_type.enumeration.name.canonical_name.object_path[-1]
